@@ -1606,3 +1606,6 @@ _add_family(globals(), _sl, 'schemaleak', lambda case, impl: _sl.oracle(case, im
 from harness import initorder as _io                    # noqa: E402
 from harness.mixins import add_family as _add_family    # noqa: E402
 _add_family(globals(), _io, 'initorder', _io.oracle, share=0.015)
+# glob children that come with Engine(store=, initial_state=) get their declared defaults (F46)
+from harness import storeinit as _si                    # noqa: E402
+_add_family(globals(), _si, 'storeinit', _si.oracle, share=0.01)
